@@ -825,3 +825,311 @@ theorem addBack_own (fx : List (Member × List TP)) : ∀ (s : St), Own s fx →
     exact ⟨this.1, this.2⟩
 
 end AkVerif.StickyAlg
+
+namespace AkVerif.StickyAlg
+open AkVerif.Assign
+
+/-! ### the initial state -/
+
+/-- the claims table built from the members' user data has one entry per partition -/
+theorem claims_nodup (members : List MemberIn) :
+    (keysOf (members.foldl (fun acc m => m.prev.foldl
+      (fun acc p => if alHas acc p then acc else acc ++ [(p, m.id)]) acc) ([] : List (TP × Member)))).Nodup := by
+  have inner : ∀ (ps : List TP) (c : Member) (acc : List (TP × Member)), (keysOf acc).Nodup →
+      (keysOf (ps.foldl (fun acc p => if alHas acc p then acc else acc ++ [(p, c)]) acc)).Nodup := by
+    intro ps c
+    induction ps with
+    | nil => intro acc h; exact h
+    | cons p rest ih =>
+      intro acc h
+      simp only [List.foldl_cons]
+      apply ih
+      split
+      · exact h
+      · rename_i hno
+        rw [keysOf_append, List.nodup_append]
+        refine ⟨h, by simp [keysOf], ?_⟩
+        intro a ha b hb; simp [keysOf] at hb
+        intro he; rw [hb] at he; rw [he] at ha
+        exact hno ((alHas_iff_mem_keys _ _).mpr ha)
+  have outer : ∀ (ms : List MemberIn) (acc : List (TP × Member)), (keysOf acc).Nodup →
+      (keysOf (ms.foldl (fun acc m => m.prev.foldl
+        (fun acc p => if alHas acc p then acc else acc ++ [(p, m.id)]) acc) acc)).Nodup := by
+    intro ms
+    induction ms with
+    | nil => intro acc h; exact h
+    | cons m rest ih => intro acc h; simp only [List.foldl_cons]; exact ih _ (inner m.prev m.id acc h)
+  exact outer members [] (by simp [keysOf])
+
+/-- grouping the claims by consumer -/
+structure Grouped (cur : List (Member × List TP)) (done : List (TP × Member)) : Prop where
+  g1 : (keysOf cur).Nodup
+  g2 : ∀ cp ∈ cur, cp.2.Nodup ∧ ∀ p ∈ cp.2, (p, cp.1) ∈ done
+  g3 : ∀ pc ∈ done, ∃ ps, (pc.2, ps) ∈ cur ∧ pc.1 ∈ ps
+
+theorem group_step (cur : List (Member × List TP)) (done : List (TP × Member)) (p : TP) (c : Member)
+    (h : Grouped cur done) (hp : p ∉ keysOf done) :
+    Grouped (alSet cur c (alGetD cur c [] ++ [p])) (done ++ [(p, c)]) := by
+  have hLmem : ∀ q ∈ alGetD cur c [], (q, c) ∈ done ∧ (alGetD cur c []).Nodup := by
+    intro q hq
+    rw [alGetD_def] at hq ⊢
+    cases hg : alGet cur c with
+    | none => rw [hg] at hq; cases hq
+    | some L =>
+      rw [hg] at hq
+      have := h.g2 (c, L) (alGet_mem _ _ _ hg)
+      exact ⟨this.2 q hq, this.1⟩
+  have hLnd : (alGetD cur c []).Nodup := by
+    rw [alGetD_def]
+    cases hg : alGet cur c with
+    | none => simp
+    | some L => exact (h.g2 (c, L) (alGet_mem _ _ _ hg)).1
+  have hpL : p ∉ alGetD cur c [] := by
+    intro hm
+    have := (hLmem p hm).1
+    exact hp (List.mem_map.mpr ⟨(p, c), this, rfl⟩)
+  refine ⟨?_, ?_, ?_⟩
+  · cases hh : alHas cur c with
+    | true => rw [keys_alSet_has _ _ _ hh]; exact h.g1
+    | false =>
+      rw [keys_alSet_new _ _ _ hh, List.nodup_append]
+      refine ⟨h.g1, by simp, ?_⟩
+      intro a ha b hb; simp at hb
+      intro he; rw [hb] at he; rw [he] at ha
+      have := (alHas_iff_mem_keys cur c).mpr ha
+      rw [hh] at this; cases this
+  · intro cp hcp
+    rcases mem_alSet _ _ _ _ hcp with heq | ⟨hin, _⟩
+    · subst heq
+      simp only
+      refine ⟨?_, ?_⟩
+      · rw [List.nodup_append]
+        refine ⟨hLnd, by simp, ?_⟩
+        intro a ha b hb; simp at hb
+        intro he; rw [hb] at he; rw [he] at ha; exact hpL ha
+      · intro q hq
+        rcases List.mem_append.mp hq with hq | hq
+        · exact List.mem_append_left _ (hLmem q hq).1
+        · simp at hq; rw [hq]; exact List.mem_append_right _ (by simp)
+    · have := h.g2 cp hin
+      exact ⟨this.1, fun q hq => List.mem_append_left _ (this.2 q hq)⟩
+  · intro pc hpc
+    rcases List.mem_append.mp hpc with hpc | hpc
+    · obtain ⟨ps, hps, hq⟩ := h.g3 pc hpc
+      by_cases he : pc.2 = c
+      · refine ⟨alGetD cur c [] ++ [p], by rw [he]; exact mem_alSet_self _ _ _, ?_⟩
+        apply List.mem_append_left
+        rw [alGetD_def]
+        have := alGet_of_mem_nodup cur pc.2 ps h.g1 hps
+        rw [← he, this]; exact hq
+      · exact ⟨ps, mem_alSet_of_ne _ _ _ _ hps (by simpa using he), hq⟩
+    · simp at hpc; subst hpc
+      exact ⟨alGetD cur c [] ++ [p], mem_alSet_self _ _ _, by simp⟩
+
+theorem group_fold (claims : List (TP × Member)) : ∀ (cur : List (Member × List TP)) (done : List (TP × Member)),
+    Grouped cur done → (keysOf (done ++ claims)).Nodup →
+    Grouped (claims.foldl (fun cur pc => alSet cur pc.2 (alGetD cur pc.2 [] ++ [pc.1])) cur) (done ++ claims) := by
+  induction claims with
+  | nil => intro cur done h _; simpa using h
+  | cons pc rest ih =>
+    intro cur done h hnd
+    simp only [List.foldl_cons]
+    have hp : pc.1 ∉ keysOf done := by
+      rw [keysOf_append] at hnd
+      have := (List.nodup_append.mp hnd).2.2
+      intro hm
+      exact this pc.1 hm pc.1 (List.mem_map.mpr ⟨pc, List.mem_cons_self, rfl⟩) rfl
+    have hstep := group_step cur done pc.1 pc.2 h hp
+    have := ih _ (done ++ [(pc.1, pc.2)]) hstep (by simpa using hnd)
+    simpa using this
+
+theorem initCurrent_grouped (members : List MemberIn) :
+    ∃ claims : List (TP × Member), (keysOf claims).Nodup ∧ Grouped (initCurrent members) claims := by
+  refine ⟨members.foldl (fun acc m => m.prev.foldl
+      (fun acc p => if alHas acc p then acc else acc ++ [(p, m.id)]) acc) [], claims_nodup members, ?_⟩
+  unfold initCurrent
+  have := group_fold (members.foldl (fun acc m => m.prev.foldl
+      (fun acc p => if alHas acc p then acc else acc ++ [(p, m.id)]) acc) []) [] []
+    (Grouped.mk (by simp [keysOf]) (fun cp h => by cases h) (fun pc h => by cases h))
+    (by simpa using claims_nodup members)
+  simpa using this
+
+end AkVerif.StickyAlg
+
+namespace AkVerif.StickyAlg
+open AkVerif.Assign
+
+/-- `Own` without the bookkeeping about `subs`, for states before `balance` starts -/
+structure OwnCore (cur : List (Member × List TP)) (owner : List (TP × Member)) : Prop where
+  K : (keysOf cur).Nodup
+  N : ∀ cp ∈ cur, cp.2.Nodup
+  HO : ∀ cp ∈ cur, ∀ p ∈ cp.2, alGet owner p = some cp.1
+  OH : ∀ p c, alGet owner p = some c → ∃ ps, (c, ps) ∈ cur ∧ p ∈ ps
+
+theorem addEmpties_spec (ms : List MemberIn) : ∀ (cur : List (Member × List TP)), (keysOf cur).Nodup →
+    let r := ms.foldl (fun cur m => if alHas cur m.id then cur else cur ++ [(m.id, [])]) cur
+    (keysOf r).Nodup ∧ (∀ cp ∈ r, cp ∈ cur ∨ cp.2 = []) ∧ (∀ cp ∈ cur, cp ∈ r) ∧
+    (∀ m ∈ ms, m.id ∈ keysOf r) ∧ (∀ k ∈ keysOf cur, k ∈ keysOf r) := by
+  induction ms with
+  | nil =>
+    intro cur h
+    refine ⟨h, fun cp hcp => Or.inl hcp, fun cp hcp => hcp, ?_, fun k hk => hk⟩
+    intro m hm; cases hm
+  | cons m rest ih =>
+    intro cur h
+    simp only [List.foldl_cons]
+    split
+    · rename_i hh
+      have := ih cur h
+      simp only at this
+      refine ⟨this.1, this.2.1, this.2.2.1, ?_, this.2.2.2.2⟩
+      intro m' hm'
+      rcases List.mem_cons.mp hm' with rfl | hm'
+      · exact this.2.2.2.2 _ ((alHas_iff_mem_keys _ _).mp hh)
+      · exact this.2.2.2.1 m' hm'
+    · rename_i hh
+      have hk : (keysOf (cur ++ [(m.id, ([] : List TP))])).Nodup := by
+        rw [keysOf_append, List.nodup_append]
+        refine ⟨h, by simp [keysOf], ?_⟩
+        intro a ha b hb; simp [keysOf] at hb
+        intro he; rw [hb] at he; rw [he] at ha
+        exact hh ((alHas_iff_mem_keys _ _).mpr ha)
+      have := ih _ hk
+      simp only at this
+      refine ⟨this.1, ?_, ?_, ?_, ?_⟩
+      · intro cp hcp
+        rcases this.2.1 cp hcp with h1 | h1
+        · rcases List.mem_append.mp h1 with h1 | h1
+          · exact Or.inl h1
+          · simp at h1; right; rw [h1]
+        · exact Or.inr h1
+      · intro cp hcp; exact this.2.2.1 cp (List.mem_append_left _ hcp)
+      · intro m' hm'
+        rcases List.mem_cons.mp hm' with rfl | hm'
+        · apply this.2.2.2.2; rw [keysOf_append]; exact List.mem_append_right _ (by simp [keysOf])
+        · exact this.2.2.2.1 m' hm'
+      · intro k hk'; apply this.2.2.2.2; rw [keysOf_append]; exact List.mem_append_left _ hk'
+
+theorem initState_ownCore (parts : List (Topic × List Nat)) (members : List MemberIn) (oracle : List TP) :
+    OwnCore (initState parts members oracle).cur (initState parts members oracle).owner ∧
+    (∀ m ∈ members, m.id ∈ keysOf (initState parts members oracle).cur) := by
+  obtain ⟨claims, hcn, hg⟩ := initCurrent_grouped members
+  have hsp := addEmpties_spec members (initCurrent members) hg.g1
+  simp only at hsp
+  have hcur : (initState parts members oracle).cur
+      = members.foldl (fun cur m => if alHas cur m.id then cur else cur ++ [(m.id, [])]) (initCurrent members) := rfl
+  have hown : (initState parts members oracle).owner
+      = (initCurrent members).flatMap (fun cp => cp.2.map (fun p => (p, cp.1))) := rfl
+  rw [hcur, hown]
+  -- an entry of the owner list comes from a list of cur0
+  have ownMem : ∀ p c, (p, c) ∈ (initCurrent members).flatMap (fun cp => cp.2.map (fun p => (p, cp.1))) ↔
+      ∃ ps, (c, ps) ∈ initCurrent members ∧ p ∈ ps := by
+    intro p c
+    simp only [List.mem_flatMap, List.mem_map]
+    constructor
+    · rintro ⟨cp, hcp, q, hq, heq⟩
+      injection heq with e1 e2
+      subst e1; subst e2
+      exact ⟨cp.2, hcp, hq⟩
+    · rintro ⟨ps, hps, hp⟩
+      exact ⟨(c, ps), hps, p, hp, rfl⟩
+  refine ⟨⟨hsp.1, ?_, ?_, ?_⟩, hsp.2.2.2.1⟩
+  · intro cp hcp
+    rcases hsp.2.1 cp hcp with h1 | h1
+    · exact (hg.g2 cp h1).1
+    · rw [h1]; simp
+  · intro cp hcp p hp
+    rcases hsp.2.1 cp hcp with h1 | h1
+    · -- (p, cp.1) is an entry of owner, and any entry with key p names the same consumer
+      have hin : (p, cp.1) ∈ (initCurrent members).flatMap (fun cp => cp.2.map (fun p => (p, cp.1))) :=
+        (ownMem p cp.1).mpr ⟨cp.2, h1, hp⟩
+      have hhas : alHas ((initCurrent members).flatMap (fun cp => cp.2.map (fun p => (p, cp.1)))) p = true :=
+        (alHas_iff_mem_keys _ _).mpr (List.mem_map.mpr ⟨(p, cp.1), hin, rfl⟩)
+      obtain ⟨c', hc'⟩ := (alHas_iff _ _).mp hhas
+      have hin' := alGet_mem _ _ _ hc'
+      obtain ⟨ps', hps', hp'⟩ := (ownMem p c').mp hin'
+      have e1 : (p, c') ∈ claims := (hg.g2 (c', ps') hps').2 p hp'
+      have e2 : (p, cp.1) ∈ claims := (hg.g2 cp h1).2 p hp
+      have := nodup_unique_val claims hcn p c' cp.1 e1 e2
+      rw [hc', this]
+    · rw [h1] at hp; cases hp
+  · intro p c hp
+    have hin := alGet_mem _ _ _ hp
+    obtain ⟨ps, hps, hpp⟩ := (ownMem p c).mp hin
+    exact ⟨ps, hsp.2.2.1 _ hps, hpp⟩
+
+theorem alGet_filter_key {α β : Type} [BEq α] [LawfulBEq α] (l : List (α × β)) (f : α → Bool) (k : α) :
+    alGet (l.filter (fun kv => f kv.1)) k = if f k then alGet l k else none := by
+  induction l with
+  | nil => simp [alGet]
+  | cons x xs ih =>
+    obtain ⟨k0, v0⟩ := x
+    simp only [List.filter_cons]
+    by_cases hk : (k0 == k) = true
+    · have : k0 = k := by simpa using hk
+      subst this
+      by_cases hf : f k0 = true
+      · simp [hf, alGet_cons]
+      · have hf' : f k0 = false := by simpa using hf
+        simp only [hf', Bool.false_eq_true, if_false, ih]
+    · by_cases hf0 : f k0 = true
+      · simp only [hf0, if_true, alGet_cons, hk, Bool.false_eq_true, if_false, ih]
+      · have hf0' : f k0 = false := by simpa using hf0
+        simp only [hf0', Bool.false_eq_true, if_false, alGet_cons, hk, ih]
+
+/-- `_populate_partitions_to_reassign` keeps cur and owner in agreement -/
+theorem populate_ownCore (s : St) (h : OwnCore s.cur s.owner) :
+    OwnCore (populatePartitionsToReassign s).cur (populatePartitionsToReassign s).owner := by
+  unfold populatePartitionsToReassign
+  simp only
+  have hkeys : keysOf (s.cur.map (fun cp => (cp.1, cp.2.filter (fun p => keepFor s cp.1 p)))) = keysOf s.cur := by
+    unfold keysOf; simp [List.map_map, Function.comp_def]
+  have notRemoved : ∀ cp ∈ s.cur, ∀ p ∈ cp.2, keepFor s cp.1 p = true →
+      p ∉ s.cur.flatMap (fun cp => cp.2.filter (fun p => !keepFor s cp.1 p)) := by
+    intro cp hcp p hp hkeep hrem
+    obtain ⟨cp2, hcp2, hp2⟩ := List.mem_flatMap.mp hrem
+    obtain ⟨hp2in, hp2k⟩ := List.mem_filter.mp hp2
+    have o1 := h.HO cp hcp p hp
+    have o2 := h.HO cp2 hcp2 p hp2in
+    rw [o1] at o2; injection o2 with o2
+    rw [← o2, hkeep] at hp2k; simp at hp2k
+  refine ⟨by rw [hkeys]; exact h.K, ?_, ?_, ?_⟩
+  · intro cp hcp
+    obtain ⟨cp0, hcp0, heq⟩ := List.mem_map.mp hcp
+    subst heq
+    exact List.Nodup.sublist List.filter_sublist (h.N cp0 hcp0)
+  · intro cp hcp p hp
+    obtain ⟨cp0, hcp0, heq⟩ := List.mem_map.mp hcp
+    subst heq
+    simp only at hp ⊢
+    obtain ⟨hp0, hkeep⟩ := List.mem_filter.mp hp
+    have := alGet_filter_key s.owner
+      (fun k => !(s.cur.flatMap (fun cp => cp.2.filter (fun p => !keepFor s cp.1 p))).contains k) p
+    rw [this]
+    have hnr := notRemoved cp0 hcp0 p hp0 hkeep
+    have hc : (s.cur.flatMap (fun cp => cp.2.filter (fun p => !keepFor s cp.1 p))).contains p = false := by
+      cases hcc : (s.cur.flatMap (fun cp => cp.2.filter (fun p => !keepFor s cp.1 p))).contains p with
+      | false => rfl
+      | true => exact absurd (by simpa using hcc) hnr
+    rw [hc]
+    exact h.HO cp0 hcp0 p hp0
+  · intro p c hp
+    have := alGet_filter_key s.owner
+      (fun k => !(s.cur.flatMap (fun cp => cp.2.filter (fun p => !keepFor s cp.1 p))).contains k) p
+    rw [this] at hp
+    split at hp
+    · rename_i hnr
+      obtain ⟨ps, hps, hpp⟩ := h.OH p c hp
+      refine ⟨ps.filter (fun p => keepFor s c p), List.mem_map.mpr ⟨(c, ps), hps, rfl⟩, ?_⟩
+      apply List.mem_filter.mpr
+      refine ⟨hpp, ?_⟩
+      cases hk : keepFor s c p with
+      | true => rfl
+      | false =>
+        exfalso
+        have : p ∈ s.cur.flatMap (fun cp => cp.2.filter (fun p => !keepFor s cp.1 p)) :=
+          List.mem_flatMap.mpr ⟨(c, ps), hps, List.mem_filter.mpr ⟨hpp, by simp [hk]⟩⟩
+        simp [List.contains_iff_mem, this] at hnr
+    · cases hp
+
+end AkVerif.StickyAlg
